@@ -8,6 +8,6 @@ PYTHONPATH=$wt timeout 120 /venv/bin/python $out/demo.py >/tmp/seed/$id/demo_cle
 if ! git apply --check $out/patch.diff 2>/dev/null; then echo "$id patch does not apply at $head"; git apply -3 $out/patch.diff || exit 2; else git apply $out/patch.diff; fi
 PYTHONPATH=$wt /venv/bin/python -m pytest -q -p no:cacheprovider --timeout=900 >/tmp/seed/$id/tests.log 2>&1; t=$?
 PYTHONPATH=$wt timeout 120 /venv/bin/python $out/demo.py >/tmp/seed/$id/demo_patched.log 2>&1; c1=$?
-git diff > /tmp/seed/$id/patch_at_head.diff
-git checkout -q -- . ; git clean -fdq
+git diff HEAD > /tmp/seed/$id/patch_at_head.diff
+git reset -q --hard HEAD; git clean -fdq
 echo "$id clean_demo_exit=$c0 tests_exit=$t ($(tail -1 /tmp/seed/$id/tests.log)) patched_demo_exit=$c1"
